@@ -23,8 +23,8 @@ type C15Genome struct {
 }
 
 func GenC15Genome() *rapid.Generator[C15Genome] {
-	plain := genGenomeSpec(GenomeCfg{MinGenes: 1, Big: true})
-	modular := genGenomeSpec(GenomeCfg{MinGenes: 1, Modules: true, Big: true})
+	plain := genGenomeSpec(GenomeCfg{MinGenes: 1, Big: true, LargeNumbers: true})
+	modular := genGenomeSpec(GenomeCfg{MinGenes: 1, Modules: true, Big: true, LargeNumbers: true})
 	return rapid.Custom(func(t *rapid.T) C15Genome {
 		if rapid.Bool().Draw(t, "yaml") {
 			return C15Genome{G: modular.Draw(t, "genome"), YAML: true}
@@ -43,6 +43,18 @@ func hasLongWeight(s GenomeSpec) bool {
 }
 
 func roundTripClasses(s GenomeSpec, rec *Rec) {
+	for _, n := range s.Nodes {
+		if n.Id > 32767 {
+			rec.Class("node id above 32767")
+			break
+		}
+	}
+	for _, g := range s.Genes {
+		if g.Innov > math.MaxInt32 {
+			rec.Class("innovation number above 2^31")
+			break
+		}
+	}
 	disabled, recurrent, nilTraits := specFeatures(s)
 	if disabled > 0 {
 		rec.Class("disabled gene")
@@ -214,6 +226,14 @@ func GenC15Pop() *rapid.Generator[C15Pop] {
 			c.Genomes[i].Id = i + rapid.IntRange(0, 1).Draw(t, "id base")*10
 			c.Fitness = append(c.Fitness, float64(rapid.IntRange(0, 20).Draw(t, "fitness")))
 		}
+		if !c.BySpecies && n > 1 && rapid.IntRange(0, 3).Draw(t, "shared genome ids") == 0 {
+			// genome ids are plain numbers, not keys: organisms collected from several runs, or copies of one genome,
+			// share them (the library itself numbers the babies of every species from 0)
+			k := rapid.IntRange(1, n-1).Draw(t, "ids modulo")
+			for i := range c.Genomes {
+				c.Genomes[i].Id = i % k
+			}
+		}
 		return c
 	})
 }
@@ -259,6 +279,9 @@ func CheckC15Pop(c C15Pop, rec *Rec) error {
 	}
 	byId := map[int]GenomeSpec{}
 	for _, g := range c.Genomes {
+		if _, dup := byId[g.Id]; dup {
+			rec.Class("two genomes of the population carry the same id")
+		}
 		byId[g.Id] = g
 	}
 	for i, o := range back.Organisms {
@@ -429,6 +452,28 @@ func CheckC15Exp(c C19Exp, rec *Rec) error {
 		return fmt.Errorf("Experiment.Write: %v", err)
 	}
 	var back experiment.Experiment
+	switch c.Receiver {
+	case 1:
+		if err = back.Read(bytes.NewReader(buf.Bytes())); err != nil {
+			return fmt.Errorf("Experiment.Read: %v", err)
+		}
+		rec.Class("record read into a value that already holds it")
+	case 2:
+		longer := c.Exp
+		longer.Id, longer.Name = c.Exp.Id+1, c.Exp.Name+"'"
+		longer.Trials = append(append([]TrialSpec{}, c.Exp.Trials...), c.Exp.Trials...)
+		for i := range longer.Trials {
+			longer.Trials[i].Id += 100
+		}
+		back = *longer.Build()
+		rec.Class("record read into a value that holds a longer record")
+	case 3:
+		if n := buf.Len(); n > 8 {
+			if err = back.Read(bytes.NewReader(buf.Bytes()[:n-n/4-1])); err != nil {
+				rec.Class("record read into a value left behind by a failed read")
+			}
+		}
+	}
 	if err = back.Read(bytes.NewReader(buf.Bytes())); err != nil {
 		return fmt.Errorf("Experiment.Read: %v", err)
 	}
@@ -505,7 +550,7 @@ func TestC15Solver(t *testing.T) {
 }
 
 func TestC15Exp(t *testing.T) {
-	runProp(t, "C15", "experiment", 500, 10000, mapGen(genExpSpec(), func(e ExpSpec) C19Exp { return C19Exp{Exp: e} }), CheckC15Exp)
+	runProp(t, "C15", "experiment", 500, 10000, genC19Exp(), CheckC15Exp)
 }
 
 func init() {
